@@ -1418,8 +1418,10 @@ public:
         basic_bigint<Allocator> v(*this);
         auto v_view = v.get_storage_view();
 
+        const auto offset = static_cast<typename std::basic_string<Ch,Traits,Alloc>::difference_type>(data.size()); // append: keep what is already there
+
         size_type len = (v_view.size() * basic_bigint<Allocator>::word_type_bits / 3) + 2;
-        data.reserve(len);
+        data.reserve(data.size() + len);
 
         if ( v_view.size() == 0 )
         {
@@ -1451,7 +1453,7 @@ public:
             {
                 data.push_back('-');
             }
-            std::reverse(data.begin(),data.end());
+            std::reverse(data.begin() + offset,data.end());
         }
     }
 
